@@ -442,28 +442,6 @@ package genql
 //@     | result == (spec.Cmp(callresult(ValueOf, 0, 1), callresult(ValueOf, 0, 2)) > 0)
 //@   ensures ge[C01]: err == nil && expr.Operator == sqlparser.GreaterEqualOp && spec.ordered(callresult(ValueOf, 0, 1)) && spec.ordered(callresult(ValueOf, 0, 2)) ==>
 //@     | result == (spec.Cmp(callresult(ValueOf, 0, 1), callresult(ValueOf, 0, 2)) >= 0)
-//@   ensures eq[C01]: err == nil && expr.Operator == sqlparser.EqualOp && spec.ordered(callresult(ValueOf, 0, 1)) && spec.ordered(callresult(ValueOf, 0, 2)) ==>
-//@     | result == (spec.Cmp(callresult(ValueOf, 0, 1), callresult(ValueOf, 0, 2)) == 0)
-//@   ensures ne[C01]: err == nil && expr.Operator == sqlparser.NotEqualOp && spec.ordered(callresult(ValueOf, 0, 1)) && spec.ordered(callresult(ValueOf, 0, 2)) ==>
-//@     | result == (spec.Cmp(callresult(ValueOf, 0, 1), callresult(ValueOf, 0, 2)) != 0)
-//@   ensures lt[C01]: err == nil && expr.Operator == sqlparser.LessThanOp && spec.ordered(callresult(ValueOf, 0, 1)) && spec.ordered(callresult(ValueOf, 0, 2)) ==>
-//@     | result == (spec.Cmp(callresult(ValueOf, 0, 1), callresult(ValueOf, 0, 2)) < 0)
-//@   ensures le[C01]: err == nil && expr.Operator == sqlparser.LessEqualOp && spec.ordered(callresult(ValueOf, 0, 1)) && spec.ordered(callresult(ValueOf, 0, 2)) ==>
-//@     | result == (spec.Cmp(callresult(ValueOf, 0, 1), callresult(ValueOf, 0, 2)) <= 0)
-//@   ensures gt[C01]: err == nil && expr.Operator == sqlparser.GreaterThanOp && spec.ordered(callresult(ValueOf, 0, 1)) && spec.ordered(callresult(ValueOf, 0, 2)) ==>
-//@     | result == (spec.Cmp(callresult(ValueOf, 0, 1), callresult(ValueOf, 0, 2)) > 0)
-//@   ensures ge[C01]: err == nil && expr.Operator == sqlparser.GreaterEqualOp && spec.ordered(callresult(ValueOf, 0, 1)) && spec.ordered(callresult(ValueOf, 0, 2)) ==>
-//@     | result == (spec.Cmp(callresult(ValueOf, 0, 1), callresult(ValueOf, 0, 2)) >= 0)
-//@   loop 0 invariant not-found[C01]: spec.ordered(callresult(ValueOf, 0, 1)) && spec.PlainList(elems(rightArray), off(rightArray), len(rightArray)) ==>
-//@     | !spec.Member(callresult(ValueOf, 0, 1), elems(rightArray), off(rightArray), rangeindex + 1)
-//@   loop 2 invariant not-found[C01]: spec.ordered(callresult(ValueOf, 0, 1)) && spec.PlainList(elems(rightArray), off(rightArray), len(rightArray)) ==>
-//@     | !spec.Member(callresult(ValueOf, 0, 1), elems(rightArray), off(rightArray), rangeindex + 1)
-//@   ensures in.absent[C01]: err == nil && expr.Operator == sqlparser.InOp && !result && typeis(callresult(Expr, 0, 2), []any) && spec.ordered(callresult(ValueOf, 0, 1)) &&
-//@     | spec.PlainList(elems(callresult(Expr, 0, 2).([]any)), off(callresult(Expr, 0, 2).([]any)), len(callresult(Expr, 0, 2).([]any))) ==>
-//@     | !spec.Member(callresult(ValueOf, 0, 1), elems(callresult(Expr, 0, 2).([]any)), off(callresult(Expr, 0, 2).([]any)), len(callresult(Expr, 0, 2).([]any)))
-//@   ensures notin.absent[C01]: err == nil && expr.Operator == sqlparser.NotInOp && result && typeis(callresult(Expr, 0, 2), []any) && spec.ordered(callresult(ValueOf, 0, 1)) &&
-//@     | spec.PlainList(elems(callresult(Expr, 0, 2).([]any)), off(callresult(Expr, 0, 2).([]any)), len(callresult(Expr, 0, 2).([]any))) ==>
-//@     | !spec.Member(callresult(ValueOf, 0, 1), elems(callresult(Expr, 0, 2).([]any)), off(callresult(Expr, 0, 2).([]any)), len(callresult(Expr, 0, 2).([]any)))
 
 //@ func BetweenExpr
 //@   ensures inclusive[C01]: err == nil && spec.ordered(callresult(ValueOf, 0, 1)) && spec.ordered(callresult(ValueOf, 0, 2)) && spec.ordered(callresult(ValueOf, 0, 3)) ==>
